@@ -147,4 +147,371 @@ theorem stable_perm (less : α → α → Bool) (d : Array α) (n : Nat) : (stab
 theorem goStable_perm (less : α → α → Bool) (l : List α) : (goStable less l).Perm l :=
   stable_perm less l.toArray l.length
 
+/-! ## Part 2: sorted, for the non-strict version of a total preorder
+
+  The array is read through `get` (a default outside the array: never consulted, every index is shown to be inside). -/
+
+section pointwise
+variable [Inhabited α]
+
+def get (d : Array α) (k : Nat) : α := d.getD k default
+
+omit [Inhabited α] in
+theorem size_swp (d : Array α) (i j : Nat) : (swp d i j).size = d.size := Array.size_swapIfInBounds
+
+theorem get_swp (d : Array α) {i j : Nat} (hi : i < d.size) (hj : j < d.size) (k : Nat) :
+    get (swp d i j) k = if k = i then get d j else if k = j then get d i else get d k := by
+  unfold get swp
+  rw [Array.swapIfInBounds_def, dif_pos hi, dif_pos hj]
+  simp only [Array.getD_eq_getD_getElem?, Array.getElem?_swap]
+  have ei : d[i]? = some d[i] := Array.getElem?_eq_getElem hi
+  have ej : d[j]? = some d[j] := Array.getElem?_eq_getElem hj
+  rw [ei, ej]
+  by_cases h1 : k = i
+  · subst h1
+    by_cases h2 : j = k
+    · subst h2; simp
+    · simp [h2]
+  · by_cases h2 : k = j
+    · subst h2; simp [h1]
+    · have h3 : ¬ j = k := fun h => h2 h.symm
+      have h4 : ¬ i = k := fun h => h1 h.symm
+      simp [h1, h2, h3, h4]
+
+theorem lessAt_eq (less : α → α → Bool) (d : Array α) {i j : Nat} (hi : i < d.size) (hj : j < d.size) :
+    lessAt less d i j = less (get d i) (get d j) := by
+  unfold lessAt get
+  simp [Array.getD_eq_getD_getElem?, hi, hj]
+
+/-! ### what the swap loops do, index by index -/
+
+/-- `for k := k; k < hi; k++ { Swap(k, k+1) }`: `data[k]` travels up to `hi`, `data[k+1 .. hi]` move down by one -/
+theorem bubbleUp_spec (hi fuel k : Nat) (d : Array α) (hk : k ≤ hi) (hhi : hi < d.size) (hf : hi ≤ k + fuel) :
+    (bubbleUp hi fuel k d).size = d.size ∧
+    ∀ x, get (bubbleUp hi fuel k d) x =
+      if k ≤ x ∧ x < hi then get d (x + 1) else if x = hi then get d k else get d x := by
+  induction fuel generalizing k d with
+  | zero =>
+    have : k = hi := by omega
+    subst this
+    refine ⟨rfl, fun x => ?_⟩
+    unfold bubbleUp
+    grind
+  | succ f ih =>
+    unfold bubbleUp
+    by_cases hlt : k < hi
+    · rw [if_pos hlt]
+      have hs := size_swp d k (k + 1)
+      obtain ⟨h1, h2⟩ := ih (k + 1) (swp d k (k + 1)) (by omega) (by omega) (by omega)
+      refine ⟨by omega, fun x => ?_⟩
+      rw [h2]
+      have g := get_swp d (i := k) (j := k + 1) (by omega) (by omega)
+      simp only [g]
+      grind
+    · rw [if_neg hlt]
+      have : k = hi := by omega
+      subst this
+      exact ⟨rfl, fun x => by grind⟩
+
+/-- `for k := k; k > lo; k-- { Swap(k, k-1) }`: `data[k]` travels down to `lo`, `data[lo .. k-1]` move up by one -/
+theorem bubbleDown_spec (lo k : Nat) (d : Array α) (hk : lo ≤ k) (hsz : k < d.size) :
+    (bubbleDown lo k d).size = d.size ∧
+    ∀ x, get (bubbleDown lo k d) x =
+      if lo < x ∧ x ≤ k then get d (x - 1) else if x = lo then get d k else get d x := by
+  induction k generalizing d with
+  | zero =>
+    refine ⟨rfl, fun x => ?_⟩
+    unfold bubbleDown
+    grind
+  | succ k ih =>
+    unfold bubbleDown
+    by_cases hlt : k + 1 > lo
+    · rw [if_pos hlt]
+      have hs := size_swp d (k + 1) k
+      obtain ⟨h1, h2⟩ := ih (swp d (k + 1) k) (by omega) (by omega)
+      refine ⟨by omega, fun x => ?_⟩
+      rw [h2]
+      have g := get_swp d (i := k + 1) (j := k) (by omega) (by omega)
+      simp only [g]
+      grind
+    · rw [if_neg hlt]
+      have : lo = k + 1 := by omega
+      subst this
+      exact ⟨rfl, fun x => by grind⟩
+
+/-- `swapRange`: two disjoint ranges of length `n` (the first one below the second) change places -/
+theorem swapRangeLoop_spec (a b n fuel i : Nat) (d : Array α) (hab : a + n ≤ b) (hsz : b + n ≤ d.size)
+    (hi : i ≤ n) (hf : n ≤ i + fuel) :
+    (swapRangeLoop a b n fuel i d).size = d.size ∧
+    (∀ t, i ≤ t → t < n → get (swapRangeLoop a b n fuel i d) (a + t) = get d (b + t)) ∧
+    (∀ t, i ≤ t → t < n → get (swapRangeLoop a b n fuel i d) (b + t) = get d (a + t)) ∧
+    (∀ x, (x < a + i ∨ a + n ≤ x) → (x < b + i ∨ b + n ≤ x) → get (swapRangeLoop a b n fuel i d) x = get d x) := by
+  induction fuel generalizing i d with
+  | zero =>
+    have : i = n := by omega
+    subst this
+    unfold swapRangeLoop
+    exact ⟨rfl, fun t h1 h2 => by omega, fun t h1 h2 => by omega, fun x _ _ => rfl⟩
+  | succ f ih =>
+    unfold swapRangeLoop
+    by_cases hlt : i < n
+    · rw [if_pos hlt]
+      have hs := size_swp d (a + i) (b + i)
+      obtain ⟨h1, h2, h3, h4⟩ := ih (i + 1) (swp d (a + i) (b + i)) (by omega) (by omega) (by omega)
+      have g := get_swp d (i := a + i) (j := b + i) (by omega) (by omega)
+      refine ⟨by omega, fun t ht1 ht2 => ?_, fun t ht1 ht2 => ?_, fun x hx1 hx2 => ?_⟩
+      · by_cases e : t = i
+        · subst e
+          rw [h4 _ (by omega) (by omega), g, if_pos rfl]
+        · rw [h2 t (by omega) ht2, g, if_neg (by omega), if_neg (by omega)]
+      · by_cases e : t = i
+        · subst e
+          rw [h4 _ (by omega) (by omega), g, if_neg (by omega), if_pos rfl]
+        · rw [h3 t (by omega) ht2, g, if_neg (by omega), if_neg (by omega)]
+      · rw [h4 x (by omega) (by omega), g, if_neg (by omega), if_neg (by omega)]
+    · rw [if_neg hlt]
+      have : i = n := by omega
+      subst this
+      exact ⟨rfl, fun t h1 h2 => by omega, fun t h1 h2 => by omega, fun x _ _ => rfl⟩
+
+theorem swapRange_spec (d : Array α) (a b n : Nat) (hab : a + n ≤ b) (hsz : b + n ≤ d.size) :
+    (swapRange d a b n).size = d.size ∧
+    (∀ t, t < n → get (swapRange d a b n) (a + t) = get d (b + t)) ∧
+    (∀ t, t < n → get (swapRange d a b n) (b + t) = get d (a + t)) ∧
+    (∀ x, (x < a ∨ a + n ≤ x) → (x < b ∨ b + n ≤ x) → get (swapRange d a b n) x = get d x) := by
+  obtain ⟨h1, h2, h3, h4⟩ := swapRangeLoop_spec a b n n 0 d hab hsz (by omega) (by omega)
+  exact ⟨h1, fun t ht => h2 t (by omega) ht, fun t ht => h3 t (by omega) ht, fun x hx1 hx2 => h4 x (by omega) (by omega)⟩
+
+/-- `rotate`: `u = data[m-i : m]` and `v = data[m : m+j]` change places (`x u v y ↦ x v u y`) -/
+theorem rotateLoop_spec (m fuel i j : Nat) (d : Array α) (hi1 : 1 ≤ i) (him : i ≤ m) (hj1 : 1 ≤ j)
+    (hsz : m + j ≤ d.size) (hf : i + j ≤ fuel + 1) :
+    (rotateLoop m fuel i j d).size = d.size ∧
+    (∀ t, t < j → get (rotateLoop m fuel i j d) (m - i + t) = get d (m + t)) ∧
+    (∀ t, t < i → get (rotateLoop m fuel i j d) (m - i + j + t) = get d (m - i + t)) ∧
+    (∀ x, (x < m - i ∨ m + j ≤ x) → get (rotateLoop m fuel i j d) x = get d x) := by
+  induction fuel generalizing i j d with
+  | zero => omega
+  | succ f ih =>
+    unfold rotateLoop
+    by_cases hne : i = j
+    · subst hne
+      rw [if_neg (by simp)]
+      obtain ⟨h1, h2, h3, h4⟩ := swapRange_spec d (m - i) m i (by omega) (by omega)
+      refine ⟨h1, fun t ht => ?_, fun t ht => ?_, fun x hx => ?_⟩
+      · rw [h2 t ht]
+      · have e : m - i + i + t = m + t := by omega
+        rw [e, h3 t ht]
+      · exact h4 x (by omega) (by omega)
+    · rw [if_pos (by simpa using hne)]
+      by_cases hgt : i > j
+      · rw [if_pos hgt]
+        obtain ⟨s1, s2, s3, s4⟩ := swapRange_spec d (m - i) m j (by omega) (by omega)
+        obtain ⟨h1, h2, h3, h4⟩ := ih (i - j) j (swapRange d (m - i) m j) (by omega) (by omega) hj1 (by omega) (by omega)
+        refine ⟨by omega, fun t ht => ?_, fun t ht => ?_, fun x hx => ?_⟩
+        · rw [h4 _ (by omega), s2 t ht]
+        · by_cases htj : t < j
+          · have e : m - i + j + t = m - (i - j) + t := by omega
+            rw [e, h2 t htj, s3 t htj]
+          · have e : m - i + j + t = m - (i - j) + j + (t - j) := by omega
+            rw [e, h3 (t - j) (by omega), s4 _ (by omega) (by omega)]
+            congr 1; omega
+        · rw [h4 x (by omega), s4 x (by omega) (by omega)]
+      · rw [if_neg hgt]
+        -- i < j: swapRange(m-i, m+j-i, i): u and the tail of v change places; then rotate u with the head of v
+        obtain ⟨s1, s2, s3, s4⟩ := swapRange_spec d (m - i) (m + j - i) i (by omega) (by omega)
+        obtain ⟨h1, h2, h3, h4⟩ := ih i (j - i) (swapRange d (m - i) (m + j - i) i) hi1 him (by omega) (by omega) (by omega)
+        refine ⟨by omega, fun t ht => ?_, fun t ht => ?_, fun x hx => ?_⟩
+        · by_cases htj : t < j - i
+          · rw [h2 t htj, s4 _ (by omega) (by omega)]
+          · have e : m - i + t = m - i + (j - i) + (t - (j - i)) := by omega
+            rw [e, h3 (t - (j - i)) (by omega), s2 _ (by omega)]
+            congr 1; omega
+        · have e : m - i + j + t = m + j - i + t := by omega
+          rw [h4 _ (by omega), e, s3 t ht]
+        · rw [h4 x (by omega), s4 x (by omega) (by omega)]
+
+theorem rotate_spec (d : Array α) (a m b : Nat) (ham : a < m) (hmb : m < b) (hsz : b ≤ d.size) :
+    (rotate d a m b).size = d.size ∧
+    (∀ t, t < b - m → get (rotate d a m b) (a + t) = get d (m + t)) ∧
+    (∀ t, t < m - a → get (rotate d a m b) (a + (b - m) + t) = get d (a + t)) ∧
+    (∀ x, (x < a ∨ b ≤ x) → get (rotate d a m b) x = get d x) := by
+  obtain ⟨h1, h2, h3, h4⟩ := rotateLoop_spec m ((m - a) + (b - m)) (m - a) (b - m) d (by omega) (by omega) (by omega)
+    (by omega) (by omega)
+  have e : m - (m - a) = a := by omega
+  rw [e] at h2 h3 h4
+  exact ⟨h1, h2, h3, fun x hx => h4 x (by omega)⟩
+
+end pointwise
+
+/-- the binary-search loop: the result is in `[i, j]`; left of it the last probe said "go right", at it the probe said
+    "stay" — whatever `right` is (no monotonicity needed) -/
+theorem bsearch_spec (right : Nat → Bool) (lo hi fuel i j : Nat) (hij : i ≤ j) (hf : j ≤ i + fuel)
+    (hlo : lo ≤ i) (hhi : j ≤ hi) (hl : i = lo ∨ right (i - 1) = true) (hr : j = hi ∨ right j = false) :
+    lo ≤ bsearch right fuel i j ∧ bsearch right fuel i j ≤ hi ∧
+    (bsearch right fuel i j = lo ∨ right (bsearch right fuel i j - 1) = true) ∧
+    (bsearch right fuel i j = hi ∨ right (bsearch right fuel i j) = false) := by
+  induction fuel generalizing i j with
+  | zero =>
+    have : i = j := by omega
+    subst this
+    unfold bsearch
+    exact ⟨hlo, hhi, hl, hr⟩
+  | succ f ih =>
+    unfold bsearch
+    by_cases hlt : i < j
+    · rw [if_pos hlt]
+      dsimp only
+      by_cases hp : right ((i + j) / 2) = true
+      · rw [if_pos hp]
+        exact ih ((i + j) / 2 + 1) j (by omega) (by omega) (by omega) hhi (Or.inr (by simpa using hp)) hr
+      · rw [if_neg hp]
+        exact ih i ((i + j) / 2) (by omega) (by omega) hlo (by omega) hl (Or.inr (by simpa using hp))
+    · rw [if_neg hlt]
+      have : i = j := by omega
+      subst this
+      exact ⟨hlo, hhi, hl, hr⟩
+
+/-- `bsearch` started on the whole interval -/
+theorem bsearch_spec' (right : Nat → Bool) (lo hi : Nat) (h : lo ≤ hi) :
+    lo ≤ bsearch right (hi - lo) lo hi ∧ bsearch right (hi - lo) lo hi ≤ hi ∧
+    (bsearch right (hi - lo) lo hi = lo ∨ right (bsearch right (hi - lo) lo hi - 1) = true) ∧
+    (bsearch right (hi - lo) lo hi = hi ∨ right (bsearch right (hi - lo) lo hi) = false) :=
+  bsearch_spec right lo hi (hi - lo) lo hi h (by omega) (Nat.le_refl _) (Nat.le_refl _) (Or.inl rfl) (Or.inl rfl)
+
+/-! ### sortedness -/
+
+/-- `less` is the non-strict version of a total preorder (`less a b = decide (key a ≥ key b)` is one) -/
+structure TotalPreorder (less : α → α → Bool) : Prop where
+  total : ∀ x y, less x y = true ∨ less y x = true
+  trans : ∀ x y z, less x y = true → less y z = true → less x z = true
+
+theorem TotalPreorder.of_false {less : α → α → Bool} (h : TotalPreorder less) {x y : α} (hxy : less x y = false) :
+    less y x = true := by
+  rcases h.total x y with h1 | h1
+  · rw [hxy] at h1; cases h1
+  · exact h1
+
+theorem TotalPreorder.refl {less : α → α → Bool} (h : TotalPreorder less) (x : α) : less x x = true := by
+  rcases h.total x x with h1 | h1 <;> exact h1
+
+section sorted
+variable [Inhabited α] (less : α → α → Bool)
+
+/-- `data[a:b]` is in order: an earlier element is `less`-related to every later one -/
+def S (d : Array α) (a b : Nat) : Prop := ∀ i j, a ≤ i → i < j → j < b → less (get d i) (get d j) = true
+
+/-- inner loop of `insertionSort`: `data[a:j]` and `data[j:J+1]` in order, everything of the first before everything
+    of the second except `data[j]` itself — afterwards `data[a:J+1]` is in order -/
+theorem insertDown_sorted (hT : TotalPreorder less) (a J j : Nat) (d : Array α) (haj : a ≤ j) (hjJ : j ≤ J) (hJ : J < d.size)
+    (h1 : S less d a j) (h2 : S less d j (J + 1))
+    (h3 : ∀ x y, a ≤ x → x < j → j < y → y ≤ J → less (get d x) (get d y) = true) :
+    (insertDown less a j d).size = d.size ∧
+    (∀ k, (k < a ∨ J < k) → get (insertDown less a j d) k = get d k) ∧
+    S less (insertDown less a j d) a (J + 1) := by
+  induction j generalizing d with
+  | zero =>
+    have : a = 0 := by omega
+    subst this
+    exact ⟨rfl, fun _ _ => rfl, h2⟩
+  | succ j ih =>
+    unfold insertDown
+    by_cases hc : (decide (a < j + 1) && lessAt less d (j + 1) j) = true
+    · rw [if_pos hc]
+      simp only [Bool.and_eq_true, decide_eq_true_eq] at hc
+      obtain ⟨haj', hl⟩ := hc
+      rw [lessAt_eq less d (by omega) (by omega)] at hl
+      have g := get_swp d (i := j + 1) (j := j) (by omega) (by omega)
+      have hs := size_swp d (j + 1) j
+      obtain ⟨r1, r2, r3⟩ := ih (swp d (j + 1) j) (by omega) (by omega) (by omega)
+        (by
+          intro x y hx hxy hy
+          rw [g, g, if_neg (by omega), if_neg (by omega), if_neg (by omega), if_neg (by omega)]
+          exact h1 x y hx hxy (by omega))
+        (by
+          intro x y hx hxy hy
+          rw [g, g]
+          by_cases ex : x = j
+          · subst ex
+            rw [if_neg (by omega), if_pos rfl]
+            by_cases ey : y = x + 1
+            · subst ey; rw [if_pos rfl]; exact hl
+            · rw [if_neg ey, if_neg (by omega)]
+              exact h2 (x + 1) y (by omega) (by omega) hy
+          · by_cases ex' : x = j + 1
+            · subst ex'
+              rw [if_pos rfl, if_neg (by omega), if_neg (by omega)]
+              exact h3 j y (by omega) (by omega) (by omega) (by omega)
+            · rw [if_neg ex', if_neg ex, if_neg (by omega), if_neg (by omega)]
+              exact h2 x y (by omega) hxy hy)
+        (by
+          intro x y hx hxj hjy hyJ
+          rw [g, g, if_neg (by omega), if_neg (by omega)]
+          by_cases ey : y = j + 1
+          · subst ey; rw [if_pos rfl]; exact h1 x j hx hxj (by omega)
+          · rw [if_neg ey, if_neg (by omega)]
+            exact h3 x y hx (by omega) (by omega) hyJ)
+      refine ⟨by omega, fun k hk => ?_, r3⟩
+      rw [r2 k hk, g, if_neg (by omega), if_neg (by omega)]
+    · rw [if_neg hc]
+      refine ⟨rfl, fun _ _ => rfl, ?_⟩
+      simp only [Bool.and_eq_true, decide_eq_true_eq, not_and, Bool.not_eq_true] at hc
+      by_cases haj' : a < j + 1
+      · have hl := hc haj'
+        rw [lessAt_eq less d (by omega) (by omega)] at hl
+        have hl' := hT.of_false hl
+        intro x y hx hxy hy
+        by_cases hyj : y < j + 1
+        · exact h1 x y hx hxy hyj
+        · by_cases hxj : j + 1 ≤ x
+          · exact h2 x y hxj hxy hy
+          · by_cases ey : y = j + 1
+            · subst ey
+              by_cases ex : x = j
+              · subst ex; exact hl'
+              · exact hT.trans _ _ _ (h1 x j hx (by omega) (by omega)) hl'
+            · exact h3 x y hx (by omega) (by omega) (by omega)
+      · have : a = j + 1 := by omega
+        subst this
+        exact h2
+
+variable {less} in
+theorem S.mono {d : Array α} {a b a' b' : Nat} (h : S less d a b) (ha : a ≤ a') (hb : b' ≤ b) : S less d a' b' :=
+  fun i j hi hij hj => h i j (by omega) hij (by omega)
+
+variable {less} in
+/-- a range that was not touched is still in order -/
+theorem S.congr {d d' : Array α} {a b : Nat} (h : S less d a b) (he : ∀ k, a ≤ k → k < b → get d' k = get d k) :
+    S less d' a b := by
+  intro i j hi hij hj
+  rw [he i hi (by omega), he j (by omega) hj]
+  exact h i j hi hij hj
+
+theorem insertionLoop_sorted (hT : TotalPreorder less) (a b fuel i : Nat) (d : Array α) (hai : a ≤ i) (hb : b ≤ d.size)
+    (hf : b ≤ i + fuel) (h : S less d a i) :
+    (insertionLoop less a b fuel i d).size = d.size ∧
+    (∀ k, (k < a ∨ b ≤ k) → get (insertionLoop less a b fuel i d) k = get d k) ∧
+    S less (insertionLoop less a b fuel i d) a b := by
+  induction fuel generalizing i d with
+  | zero => exact ⟨rfl, fun _ _ => rfl, h.mono (Nat.le_refl _) (by omega)⟩
+  | succ f ih =>
+    unfold insertionLoop
+    by_cases hlt : i < b
+    · rw [if_pos hlt]
+      obtain ⟨r1, r2, r3⟩ := insertDown_sorted less hT a i i d hai (Nat.le_refl _) (by omega) h
+        (fun x y hx hxy hy => by omega) (fun x y _ _ h1 h2 => by omega)
+      obtain ⟨q1, q2, q3⟩ := ih (i + 1) (insertDown less a i d) (by omega) (by omega) (by omega) r3
+      refine ⟨by omega, fun k hk => ?_, q3⟩
+      rw [q2 k hk, r2 k (by omega)]
+    · rw [if_neg hlt]
+      exact ⟨rfl, fun _ _ => rfl, h.mono (Nat.le_refl _) (by omega)⟩
+
+/-- **insertionSort**: `data[a:b]` is in order afterwards, the rest is untouched -/
+theorem insertionSort_sorted (hT : TotalPreorder less) (d : Array α) (a b : Nat) (hb : b ≤ d.size) :
+    (insertionSort less d a b).size = d.size ∧
+    (∀ k, (k < a ∨ b ≤ k) → get (insertionSort less d a b) k = get d k) ∧
+    S less (insertionSort less d a b) a b :=
+  insertionLoop_sorted less hT a b (b - (a + 1)) (a + 1) d (by omega) hb (by omega) (fun i j hi hij hj => by omega)
+
+end sorted
+
 end Wtf.GoSort
